@@ -536,7 +536,7 @@ func TestVerifC08Drift(t *testing.T) {
 				}
 				l := pick(t, "updatePod", func(l *c08Life) bool { return l.obj != nil })
 				n := l.obj.DeepCopy()
-				kind := rapid.SampledFrom([]string{"resources", "resources", "priority", "conditions", "conditions", "terminate", "nodeName", "metadata"}).Draw(t, "updateKind")
+				kind := rapid.SampledFrom([]string{"resources", "resources", "limits", "limits", "priority", "conditions", "conditions", "terminate", "nodeName", "metadata"}).Draw(t, "updateKind")
 				if kind == "priority" && (n.Spec.Priority == nil || n.Labels[extension.LabelPodPriorityClass] != "") {
 					kind = "resources"
 				}
@@ -573,6 +573,87 @@ func TestVerifC08Drift(t *testing.T) {
 					}
 					delete(ctr.Resources.Limits, name)
 					s.classes["update-spec"] = true
+				case "limits": // in-place resize of a limit only: requests, priority, nodeName and conditions stay as they are
+					ctr := &n.Spec.Containers[rapid.IntRange(0, len(n.Spec.Containers)-1).Draw(t, "limitContainer")]
+					cpuName, memName := corev1.ResourceCPU, corev1.ResourceMemory
+					for k := range ctr.Resources.Requests {
+						switch k {
+						case extension.BatchCPU, extension.MidCPU:
+							cpuName = k
+						case extension.BatchMemory, extension.MidMemory:
+							memName = k
+						}
+					}
+					name := cpuName
+					if rapid.Bool().Draw(t, "limitOnMemory") {
+						name = memName
+					}
+					milli := name == corev1.ResourceCPU
+					val := func(q resource.Quantity) int64 {
+						if milli {
+							return q.MilliValue()
+						}
+						return q.Value()
+					}
+					mk := func(v int64) resource.Quantity {
+						switch {
+						case milli:
+							return *resource.NewMilliQuantity(v, resource.DecimalSI)
+						case name == memName:
+							return *resource.NewQuantity(v, resource.BinarySI)
+						}
+						return *resource.NewQuantity(v, resource.DecimalSI)
+					}
+					req := val(ctr.Resources.Requests[name])
+					oldLim, hadLim := ctr.Resources.Limits[name]
+					var v int64
+					switch rapid.IntRange(0, 4).Draw(t, "limitKind") {
+					case 0: // drop the limit
+						v = -1
+					case 1: // limit == request
+						v = req
+					case 2: // just above the request
+						v = req + 1
+					default: // well above the request (burstable)
+						if name == memName {
+							v = req + rapid.Int64Range(1, 8<<30).Draw(t, "limitExtraMem")
+						} else {
+							v = req + rapid.Int64Range(1, 8000).Draw(t, "limitExtraCPU")
+						}
+					}
+					if v == 0 || (v < 0 && !hadLim) || (v >= 0 && hadLim && val(oldLim) == v) {
+						v = req + 1000 // make it a real change
+						if hadLim && val(oldLim) == v {
+							v++
+						}
+					}
+					if v < 0 {
+						delete(ctr.Resources.Limits, name)
+						if len(ctr.Resources.Limits) == 0 {
+							ctr.Resources.Limits = nil
+						}
+					} else {
+						if ctr.Resources.Limits == nil {
+							ctr.Resources.Limits = corev1.ResourceList{}
+						}
+						ctr.Resources.Limits[name] = mk(v)
+					}
+					s.classes["update-limits-only"] = true
+					if node := n.Spec.NodeName; node != "" && s.nodes[node].pods[n.UID] != nil && !c08Terminated(n) {
+						s.classes["update-limits-only-of-assigned-pod"] = true
+						eo, en := env.estimate(l.obj), env.estimate(n)
+						for i := range eo {
+							if eo[i] != en[i] {
+								s.classes["update-limits-only-changes-estimate"] = true
+								if en[i] > eo[i] {
+									s.classes["update-limits-only-raises-estimate"] = true
+								}
+							}
+						}
+						if s.nodes[node].metric != nil {
+							s.classes["update-limits-only-with-metric-present"] = true
+						}
+					}
 				case "priority":
 					was := extension.GetPodPriorityClassWithDefault(n)
 					to := extension.PriorityBatch
